@@ -64,6 +64,11 @@ func main() {
 		fmt.Fprintln(os.Stderr, "usage: gosymx check|run|list ...")
 		os.Exit(2)
 	}
+	if exe, err := os.Executable(); err == nil {
+		if d := filepath.Dir(filepath.Dir(exe)); fileExists(filepath.Join(d, "harness", "registry.json")) {
+			verifDir = d
+		}
+	}
 	if v := os.Getenv("VERIF_DIR"); v != "" {
 		verifDir = v
 	}
@@ -637,6 +642,11 @@ func cmdCheck(args []string) int {
 	ioutil.WriteFile(filepath.Join(verifDir, "evidence", prop+".json"), eb, 0o644)
 	fmt.Printf("%s %s: exit %d (%.1fs)\n", prop, tier, exit, time.Since(t0).Seconds())
 	return exit
+}
+
+func fileExists(p string) bool {
+	_, err := os.Stat(p)
+	return err == nil
 }
 
 func maxi(a, b int64) int64 {
